@@ -24,7 +24,9 @@ BOUNDS = {
              'every byte string of w<=4 bytes through IO.recv_reply, cut at '
              '<=1 position, compared with a reference parser; ESC class: '
              'every code x every message of <=6 chars over ESC-shaped text',
-    'thorough': 'm<=5, up to 2 successors, c<=2; raw w<=7',
+    'thorough': 'm<=4 (m=5 uncut, no successor), up to 2 successors, c<=2; '
+                'raw w<=5 with c<=2, w=6 with 1 cut; 3-line multi-line '
+                'texts with 2 cuts (big cells split over 4-16 processes)',
 }
 OUTSIDE = ('messages longer than the bound, code points above 0x7FF (3/4-byte '
            'UTF-8 is exercised by the engine self-test only), more cuts')
@@ -48,18 +50,32 @@ def cells(tier):
         out.append({'kind': 'esc', 'm': 6})
         out.append({'kind': 'multi', 'lines': 2, 'c': 1})
     else:
-        for m in range(0, 6):
+        big = []
+        for m in range(0, 5):
             for succ, c in ((0, 2), (1, 1), (2, 0), (2, 1)):
-                if m == 5 and (succ, c) in ((0, 2), (2, 1)):
+                if m >= 3 and (succ, c) == (2, 1):
                     continue
-                out.append({'kind': 'rt', 'm': m, 'succ': succ, 'c': c})
-        for w in range(1, 8):
+                cell = {'kind': 'rt', 'm': m, 'succ': succ, 'c': c}
+                if m == 4:
+                    big.extend(api.shards(cell, 16, 10))
+                elif m == 3 and succ:
+                    big.extend(api.shards(cell, 4, 8))
+                else:
+                    out.append(cell)
+        out.append({'kind': 'rt', 'm': 5, 'succ': 0, 'c': 0})
+        for w in range(1, 6):
             for c in (1, 2):
-                if w >= 6 and c == 2:
-                    continue
-                out.append({'kind': 'raw', 'w': w, 'c': c})
+                cell = {'kind': 'raw', 'w': w, 'c': c}
+                if w == 5 and c == 2:
+                    big.extend(api.shards(cell, 8, 8))
+                else:
+                    out.append(cell)
+        big.extend(api.shards({'kind': 'raw', 'w': 6, 'c': 1}, 16, 10))
         out.append({'kind': 'esc', 'm': 7})
         out.append({'kind': 'multi', 'lines': 3, 'c': 2})
+        out.sort(key=lambda x: -(x.get('m', x.get('w', 0)) * 4 +
+                                 x.get('succ', 0) * 2 + 3 * x.get('c', 0)))
+        return big + out
     out.sort(key=lambda x: -(x.get('m', x.get('w', 0)) * 4 +
                              x.get('succ', 0) * 2 + 3 * x.get('c', 0)))
     return out
